@@ -348,6 +348,7 @@ func checkC08(p *Prog, r *Report) {
 	ruleGuardTable(p, r, "R08.g", "C08")
 	ruleMergeCompleteness(p, r, "R18.1", map[string]bool{"panos": true})
 	ruleStickyState(p, r, "C08", map[string]bool{"cisco": true, "asa": true, "ios": true}, 9)
+	ruleCutsetMisuse(p, r, map[string]bool{"cisco": true, "asa": true, "ios": true, "panos": true, "nsx": true})
 	r.rule("R-M", "Mark discipline (PAN-OS, NSX): the marks needed / nameOnDevice decide which objects are transferred before the rules that reference them and under which name a rule refers to a group; every store into such a mark lies at a function+site whose controlling conditions are audited rows of tables/guards.tsv (compared by R08.g).")
 	ruleMarkDiscipline(p, r, "R-M", "C08", "panos", []string{".needed", ".nameOnDevice"}, 14)
 	ruleMarkDiscipline(p, r, "R-M", "C08", "nsx", []string{".needed", ".nameOnDevice"}, 6)
